@@ -24,6 +24,9 @@ EXPLANATION = (
     "Not decided: arbitrary mutation "
     "histories (but without a shared edge no history can alias)."
 )
+TECHNIQUE = (
+    "static analysis (no execution): ownership/aliasing analysis - copy constructors per mutable field kind, element-wise copy recognition, operand write-sets and returned-operand lint for non-in-place operators, adoption of operand objects"
+)
 ASSUMPTIONS = [
     "Length values held in geometry attributes are treated as value objects (the module rebinds them, it does not mutate them in place, except Length.__imul__/__iadd__ on locals that are copies).",
     "Path(seg1, seg2, ...), Path(list) and Path(tuple) adopt their arguments by design (constructor from parts); this is documented and not reported.",
